@@ -1,5 +1,5 @@
 (* C16 — cmath exact set: property theorems, part 1 (sign, classification, min/max/dim, ladders,
-   recorded defects).  Each is closed by [exact] of lemmas proved in Proofs*.v and followed by
+   examples).  Each is closed by [exact] of lemmas proved in Proofs*.v and followed by
    Print Assumptions.  Floating-point values are Flocq's BinarySingleNaN.binary_float (all NaNs
    identified); b32 = binary32, b64 = binary64.  [g_*] = vendored gcem code, [e_*] = etl code,
    [spec_*] = ISO C Annex F / IEC 60559 via Flocq.  The theorems of this file hold for EVERY
@@ -71,13 +71,20 @@ Theorem C16_signbit_fallback_exact :
 Proof. exact (conj signbit_fb32_exact signbit_fb64_exact). Qed.
 Print Assumptions C16_signbit_fallback_exact.
 
-(* recorded defects of the vendored gcem fall-back (known findings KF-C16-gcem-fmod-*,
-   KF-C16-gcem-remainder-is-fmod): the constant-evaluation path of fmod / remainder *)
-Theorem C16_gcem_fmod_refuted :
-  (exists x y : b32, g_fmod 24 128 p32 pe32 x y <> Ok (spec_fmod 24 128 p32 pe32 x y)) /\
-  (exists x y : b32, g_fmod 24 128 p32 pe32 x y <> Ok (spec_remainder 24 128 p32 pe32 x y)).
-Proof. exact (conj g_fmod_refuted g_remainder_refuted). Qed.
-Print Assumptions C16_gcem_fmod_refuted.
+(* gcem fmod / remainder, the constant-evaluation path of etl::fmod / etl::remainder (exact binary
+   long division since the rewrite; the five former known findings KF-C16-gcem-fmod-*,
+   KF-C16-gcem-remainder-is-fmod are now kernel-evaluated regression examples) *)
+Theorem C16_gcem_fmod_examples :
+  encr (g_fmod 24 128 p32 pe32 (dec32 1343554297) (dec32 1077936128)) = 1065353216 /\
+  encr (g_fmod 24 128 p32 pe32 (dec32 1084227584) (dec32 2139095040)) = 1084227584 /\
+  encr (g_fmod 24 128 p32 pe32 (dec32 3225419776) (dec32 1077936128)) = 2147483648 /\
+  encr (g_fmod 24 128 p32 pe32 (dec32 1065353216) (dec32 1)) = 0 /\
+  encr (g_remainder 24 128 p32 pe32 (dec32 1084227584) (dec32 1077936128)) = 3212836864.
+Proof.
+  exact (conj (proj1 g_fmod_ex_large) (conj (proj1 g_fmod_ex_inf_divisor) (conj (proj1 g_fmod_ex_zero_sign)
+        (conj (proj1 g_fmod_ex_tiny_divisor) (proj1 g_remainder_ex))))).
+Qed.
+Print Assumptions C16_gcem_fmod_examples.
 (* why fmin/fmax no longer use gcem min/max *)
 Theorem C16_gcem_min_max_refuted :
   (exists x y : b32, g_min 24 128 x y <> spec_fmin 24 128 x y) /\
